@@ -423,7 +423,8 @@ theorem mem_map_bcSwap (a1 a2 : String) (x y : Char) (h1 : a1.toList = [x]) (h2 
 swap the mesh is periodic along `a2` iff it was along `a1`, along `a1` iff it was along `a2`, and
 along any other axis iff it was before. -/
 theorem periodic_turns (m m' : Mesh) (hok : Mesh.bcOk m.region.dims m.bc = true) (a1 a2 : String) (k : Int)
-    (hk : isOdd k = true) (s1 : a1.length = 1) (s2 : a2.length = 1) (hbc : m'.bc = rotBc m.bc a1 a2 k) :
+    (hk : isOdd k = true) (s1 : a1.length = 1) (s2 : a2.length = 1) (lo1 : a1.toLower = a1) (lo2 : a2.toLower = a2)
+    (hbc : m'.bc = rotBc m.bc a1 a2 k) :
     (PeriodicAlong m' a2 ↔ PeriodicAlong m a1) ∧ (PeriodicAlong m' a1 ↔ PeriodicAlong m a2) ∧
     ∀ d, d ≠ a1 → d ≠ a2 → (PeriodicAlong m' d ↔ PeriodicAlong m d) := by
   obtain ⟨x, hx⟩ := single_of_length a1 s1
@@ -435,7 +436,7 @@ theorem periodic_turns (m m' : Mesh) (hok : Mesh.bcOk m.region.dims m.bc = true)
     intro d _ _; exact ⟨fun h => absurd hp' h.1, fun h => absurd hp h.1⟩
   · have hp' : ¬ PlainBc m'.bc := fun h => hp (hpl.mp h)
     have hl : m'.bc.toList = m.bc.toList.map (bcSwap a1 a2) := by
-      rw [hbc, rotBc_odd _ _ _ _ hk hp s1 s2, String.toList_ofList]
+      rw [hbc, rotBc_odd _ _ _ _ hk hp s1 s2 lo1 lo2, String.toList_ofList]
     have key : ∀ c, c ∈ m'.bc.toList ↔ bcSwap a1 a2 c ∈ m.bc.toList := by
       intro c; rw [hl]; exact mem_map_bcSwap a1 a2 x y hx hy _ c
     have sx : bcSwap a1 a2 x = y := by rw [bcSwap_spec a1 a2 x y hx hy]; simp
